@@ -13,24 +13,24 @@ import (
 )
 
 type CV struct {
-	T  string
-	Ty types.Type     // nil for untyped constants and ghost/ref-sorted values
-	K  constant.Value // untyped constant
-	Sort string       // explicit sort when Ty is nil and K is nil
-	AbsOf  string     // for a rebased quantified index: the bare SMT bound variable (absolute index)
-	AbsOff string     // ... and the slice offset it is rebased on (value == AbsOf - AbsOff)
-	P      *Ptr       // for an interior pointer argument (&x.f, &a[i]): where it points, so fields can be read through it
+	T      string
+	Ty     types.Type     // nil for untyped constants and ghost/ref-sorted values
+	K      constant.Value // untyped constant
+	Sort   string         // explicit sort when Ty is nil and K is nil
+	AbsOf  string         // for a rebased quantified index: the bare SMT bound variable (absolute index)
+	AbsOff string         // ... and the slice offset it is rebased on (value == AbsOf - AbsOff)
+	P      *Ptr           // for an interior pointer argument (&x.f, &a[i]): where it points, so fields can be read through it
 }
 
 type Env struct {
-	g      *Gen
-	fr     *Frame
-	st     *State
-	old    *State
-	vars   map[string]CV
-	pkg    *types.Package
+	g            *Gen
+	fr           *Frame
+	st           *State
+	old          *State
+	vars         map[string]CV
+	pkg          *types.Package
 	preferParams bool
-	bound  map[string]CV
+	bound        map[string]CV
 }
 
 func (g *Gen) envFor(fr *Frame, st *State) *Env {
